@@ -3,6 +3,7 @@ package conc
 import (
 	"fmt"
 	"os"
+	"reflect"
 	"sort"
 	"strings"
 	"sync"
@@ -142,6 +143,65 @@ func fileFamily() firstUse {
 				f := file(st)
 				x := f.Extensions().Get(0)
 				return fmt.Sprint(x.Name(), x.ContainingMessage().FullName(), x.Kind(), f.Services().Get(0).Methods().Get(0).Output().FullName())
+			}},
+		},
+	}
+}
+
+
+// ---- (e) extension types ---------------------------------------------------------------
+
+type extState struct {
+	modern *impl.ExtensionInfo // initialised from a descriptor, as newly generated code does
+	legacy *impl.ExtensionInfo // only the exported v1 fields set, as old generated code does
+}
+
+func extensionFamily() firstUse {
+	origMsg := testpb.E_OptionalNestedMessage
+	xs := func(st any) *extState { return st.(*extState) }
+	return firstUse{
+		name: "impl.ExtensionInfo first use (fresh descriptor-initialised and legacy-initialised extension types)",
+		fresh: func() any {
+			m := &impl.ExtensionInfo{}
+			impl.InitExtensionInfo(m, origMsg.TypeDescriptor().Descriptor(), reflect.TypeOf((*testpb.TestAllExtensions_NestedMessage)(nil)))
+			l := &impl.ExtensionInfo{ExtendedType: (*testpb.TestAllExtensions)(nil), ExtensionType: (*int32)(nil), Field: 1, Name: "goproto.proto.test.optional_int32", Tag: "varint,1,opt,name=optional_int32", Filename: "internal/testprotos/test/test.proto"}
+			return &extState{m, l}
+		},
+		quick: 4,
+		ops: []fuOp{
+			{"modern.SetExtension+Marshal", func(st any) string {
+				msg := &testpb.TestAllExtensions{}
+				proto.SetExtension(msg, xs(st).modern, &testpb.TestAllExtensions_NestedMessage{A: proto.Int32(3)})
+				b, err := proto.MarshalOptions{Deterministic: true}.Marshal(msg)
+				return fmt.Sprintf("%x %v", b, err)
+			}},
+			{"modern.descriptor+Zero", func(st any) string {
+				x := xs(st).modern
+				return fmt.Sprint(x.TypeDescriptor().FullName(), x.TypeDescriptor().Number(), x.Zero().Message().IsValid(), x.IsValidInterface((*testpb.TestAllExtensions_NestedMessage)(nil)))
+			}},
+			{"legacy.descriptor", func(st any) string {
+				x := xs(st).legacy
+				d := x.TypeDescriptor()
+				return fmt.Sprint(d.FullName(), d.Number(), d.Kind(), d.ContainingMessage().FullName(), d.ParentFile() == nil)
+			}},
+			{"legacy.SetExtension+Marshal", func(st any) string {
+				msg := &testpb.TestAllExtensions{}
+				proto.SetExtension(msg, xs(st).legacy, int32(7))
+				b, err := proto.MarshalOptions{Deterministic: true}.Marshal(msg)
+				return fmt.Sprintf("%x %v %v", b, err, proto.GetExtension(msg, xs(st).legacy))
+			}},
+			{"legacy.New+ValueOf", func(st any) string {
+				x := xs(st).legacy
+				return fmt.Sprint(x.New().Int(), x.ValueOf(int32(5)).Int(), x.InterfaceOf(x.Zero()))
+			}},
+			{"modern.Unmarshal", func(st any) string {
+				ts := &protoregistry.Types{}
+				if err := ts.RegisterExtension(xs(st).modern); err != nil {
+					return "ERR " + err.Error()
+				}
+				msg := &testpb.TestAllExtensions{}
+				err := proto.UnmarshalOptions{Resolver: ts}.Unmarshal([]byte{0x92, 0x01, 0x02, 0x08, 0x03}, msg)
+				return fmt.Sprint(err, proto.GetExtension(msg, xs(st).modern).(*testpb.TestAllExtensions_NestedMessage).GetA())
 			}},
 		},
 	}
@@ -338,7 +398,7 @@ func exploreFamily(c *core.Ctx, fam firstUse, bound int, extraFor func(idx []int
 func runC19(c *core.Ctx) {
 	needShim("C19")
 	bound := core.Pick(c, 2, 3)
-	c.Rule = fmt.Sprintf("E-SCHED (see C18 for the engine). Families of concurrent first use, each execution starting from fresh never-used state: (a) a fresh impl.MessageInfo for TestAllTypes (double-checked init under initMu/initDone, coder and reflection tables) used through fast-path methods and reflection; (b) a fresh filedesc.File from filedesc.Builder (lazyInit mutex + atomic once, sync.Once-guarded lookup tables of desc_list) read through every kind of accessor; (c) the global registries: RegisterFile / RegisterMessage of a new file and type concurrent with lookups by path, name, package and URL; (d) legacy wrappers with all derived-descriptor caches reset (hook added by the overlay): an aberrant cyclic Parent/Child pair, a legacy generated message and an enum. For EVERY multiset of 2 and of 3 operations (quick: triples over the first few operations) EVERY schedule with at most %d preemptions (one less for 3 threads) at synchronisation operations is run. Registering the same file or type twice panics by design and is not a scenario. Oracle: no panic, no deadlock, each thread observes exactly what a sequential program observes (for (c): a result some sequential order produces, and after the run everything is found and is the registered instance), and later sequential users of the same state observe the same. Free-running race-detector pass of the same bodies as a supplementary child", bound)
+	c.Rule = fmt.Sprintf("E-SCHED (see C18 for the engine). Families of concurrent first use, each execution starting from fresh never-used state: (a) a fresh impl.MessageInfo for TestAllTypes (double-checked init under initMu/initDone, coder and reflection tables) used through fast-path methods and reflection; (b) a fresh filedesc.File from filedesc.Builder (lazyInit mutex + atomic once, sync.Once-guarded lookup tables of desc_list) read through every kind of accessor; (c) the global registries: RegisterFile / RegisterMessage of a new file and type concurrent with lookups by path, name, package and URL; (e) fresh impl.ExtensionInfo values, one initialised from a descriptor as new generated code does and one from the exported v1 fields as old generated code does, used through SetExtension/Marshal/Unmarshal/descriptor/New/ValueOf; (d) legacy wrappers with all derived-descriptor caches reset (hook added by the overlay): an aberrant cyclic Parent/Child pair, a legacy generated message and an enum. For EVERY multiset of 2 and of 3 operations (quick: triples over the first few operations) EVERY schedule with at most %d preemptions (one less for 3 threads) at synchronisation operations is run. Registering the same file or type twice panics by design and is not a scenario. Oracle: no panic, no deadlock, each thread observes exactly what a sequential program observes (for (c): a result some sequential order produces, and after the run everything is found and is the registered instance), and later sequential users of the same state observe the same. Free-running race-detector pass of the same bodies as a supplementary child", bound)
 	c.Exhaustive = true
 	var race *core.Child
 	if !core.IsChild() {
@@ -383,6 +443,7 @@ func runC19(c *core.Ctx) {
 			return ""
 		}
 	}, false)...)
+	plans = append(plans, exploreFamily(c, extensionFamily(), bound, nil, true)...)
 	plans = append(plans, legacyPlans(c, bound)...)
 	c.Bounds["preemption_bound"] = bound
 	c.Bounds["plans"] = plans
@@ -397,7 +458,7 @@ func runC19Race(c *core.Ctx) {
 	c.Rule = "free-running race-detector pass for C19 (sampling; complements the schedule exploration)"
 	c.Exhaustive = false
 	rounds := core.Pick(c, 40, 400)
-	for _, fam := range []firstUse{messageInfoFamily(), fileFamily(), registryFamily()} {
+	for _, fam := range []firstUse{messageInfoFamily(), fileFamily(), registryFamily(), extensionFamily()} {
 		for r := 0; r < rounds; r++ {
 			st := fam.fresh()
 			var wg sync.WaitGroup
